@@ -549,6 +549,20 @@ PBT_REGRESSION(exactly_at_member_and_item_limits)
   }
 }
 
+PBT_REGRESSION(integers_just_beyond_int64)
+{
+  for (std::string t : {"9223372036854775808", "9999999999999999999", "-9223372036854775809", "[9300000000000000000]"})
+  {
+    c.describe(t);
+    auto r = Json::parse(std::string_view(t), ParseLimits{});
+    if (!r.ok) { c.fail("C13/construct/rejected-valid", "rejected " + t); continue; }
+    const Json &j = r.value.isArray() ? r.value.getArray()[0] : r.value;
+    std::string digits = t[0] == '[' ? t.substr(1, t.size() - 2) : t;
+    double want = std::strtod(digits.c_str(), nullptr);
+    if (!j.isDouble() || j.getDouble() != want) c.fail("C13/construct/number", "integer beyond int64 must decode as the nearest double: " + t + " -> " + j.dump());
+  }
+}
+
 PBT_REGRESSION(truncated_object_key)
 {
   for (std::string t : {"{", "{\"a\":1,", "{\"a\":1, "})
